@@ -447,6 +447,19 @@ impl<'a> Drv<'a> {
                 viol!(self, "C17", "offer-withdrawn", self.kc(j), "offer of {} withdrawn ({})", j, by_id[j.as_str()].state);
             }
         }
+        // the single-job form of the ready report agrees with the set form
+        match self.ev.next_job_ready_to_run() {
+            Some(j) => {
+                if !ready.contains(&j) {
+                    viol!(self, "C17", "next-job-not-in-ready-set", "", "next_job_ready_to_run() = {} which query_ready_to_run() {:?} does not contain", j, ready);
+                }
+            }
+            None => {
+                if !ready.is_empty() {
+                    viol!(self, "C17", "next-job-none-but-ready-set-nonempty", "", "next_job_ready_to_run() = None although query_ready_to_run() = {:?}", ready);
+                }
+            }
+        }
         let all_finished = snap.jobs.iter().all(|j| j.finished);
         if finished != all_finished {
             viol!(self, "C17", "is-finished-mismatch", "", "is_finished()={} but all jobs finished={}", finished, all_finished);
